@@ -208,6 +208,8 @@ def main_for(chk: Check, pid: str, models: bool = True):
         elite_sweep(chk, suspects)
     if pid == "C03":
         pooled_best_sweep(chk)
+    if pid == "C09":
+        touch_sweep(chk)
     if pid == "C06":
         # second half of the property: an invalid call is rejected up front (Instance histories with OptimizeBadCall,
         # Optimize without configuration, SetConfig with a bad dictionary), replayed on all 84 classes
@@ -356,13 +358,17 @@ def elite_sweep(chk: Check, suspects=()):
     thorough = chk.tier == "thorough"
     specs = []
     for opt in gen.OPTIMIZERS:
-        if opt in gen.NON_ELITIST:
+        if opt in gen.NON_ELITIST and not gen.elitist(opt, gen.FIX[opt]["config"]):
             continue
-        for _ in range((120 if thorough else 12) + (150 if opt in suspects else 0)):
+        conditional = opt in gen.NON_ELITIST      # claimed for some configuration shapes only: sample those shapes more densely
+        for _ in range((120 if thorough else 12) + (150 if opt in suspects else 0) + (60 if conditional else 0)):
             d = gen.task_desc(rng, rng.choice(["contmulti", "cont"]), dim=rng.choice([1, 2, 3, 5]))
             d["scale"] = rng.choice([1.0, 1.0, 1.0, 1e-20, 1e12])
-            specs.append({"opt": opt, "desc": d,
-                          "cfg": gen.config_dict(rng, opt, scale=1, max_cycles=(rng.choice([40, 60]) if thorough else 40), stop="cycles", jit=rng.random() < 0.3)})
+            # population sizes that are not multiples of the optimizer's group count (residual groups) in a third of the runs
+            cfgd = gen.config_dict(rng, opt, scale=1, max_cycles=(rng.choice([40, 60]) if thorough else 40), stop="cycles", jit=rng.random() < 0.3,
+                                   plus=rng.choice([0, 0, 0, 0, 1, 2, 3]))
+            if gen.elitist(opt, cfgd):
+                specs.append({"opt": opt, "desc": d, "cfg": cfgd})
     with cf.ProcessPoolExecutor(14) as ex:
         outs = [r for r in ex.map(_elite_run, specs, chunksize=6) if r]
     recs = []
@@ -394,6 +400,88 @@ def elite_sweep(chk: Check, suspects=()):
         c["bests"][3] = worse
         cbad, _, _ = corpus.judge("TraceElite.tla", "TraceElite.cfg", [c], "elite-canary", jobs=1)
         chk.canary("C17.mono#long", (1, "C17.mono") in set(cbad), "one generation's best cost of a real long run made worse")
+
+
+def _touch_run(spec):
+    """one run on an input OUTSIDE the corpus (a low-dimensional task, a configuration/task pair that violates a documented
+    precondition): the run may raise - C09 says the caller's objects are left untouched 'also when it raises'"""
+    import contextlib, io, signal, warnings
+    import numpy as np
+    import pyvolutionary
+    from . import tasks
+    opt, desc = spec["opt"], spec["desc"]
+    try:
+        cfg = getattr(pyvolutionary, gen.FIX[opt]["config_class"])(**spec["cfg"])
+    except Exception:
+        return None
+    task = tasks.build_task(desc, cls=tasks.PlainTask)
+    cfg0, task0 = corpus._dump_model(cfg), corpus._dump_model(task)
+    tasks.REC.reset()
+    raised = ""
+
+    def _alarm(*_):
+        raise TimeoutError("touch run")
+    signal.signal(signal.SIGALRM, _alarm)
+    signal.alarm(60)
+    try:
+        with contextlib.redirect_stdout(io.StringIO()), warnings.catch_warnings(), np.errstate(all="ignore"):
+            warnings.simplefilter("ignore")
+            getattr(pyvolutionary, opt)(cfg).optimize(task)
+    except TimeoutError:
+        return None
+    except Exception as ex:
+        raised = type(ex).__name__
+    finally:
+        signal.alarm(0)
+    cfg1, task1 = corpus._dump_model(cfg), corpus._dump_model(task)
+    return {"opt": opt, "spec": spec, "raised": raised, "cfg_same": cfg0 == cfg1, "task_same": task0 == task1,
+            "cfg_diff": corpus._field_diff(cfg0, cfg1) if cfg0 != cfg1 else [],
+            "task_diff": corpus._field_diff(task0, task1) if task0 != task1 else []}
+
+
+def touch_sweep(chk: Check):
+    """C09 outside the corpus's input space: every optimizer on 1- and 2-dimensional tasks (continuous, discrete, binary)
+    with documented and jittered configurations, INCLUDING the pairs the corpus skips for a violated precondition; whatever the
+    run does (many of these raise), the caller's configuration and task must be left as they were.  Judged by TraceInstance
+    (CallerUntouched of Instance.tla on a Construct - Optimize history without reference runs)."""
+    import concurrent.futures as cf
+    from .judge import judge
+    rng = random.Random(chk.seed + 909)
+    thorough = chk.tier == "thorough"
+    specs = []
+    for opt in gen.OPTIMIZERS:
+        for k in range(16 if thorough else 4):
+            d = gen.task_desc(rng, ["cont", "contmulti", "disc", "bin"][k % 4], dim=1 + (k // 2) % 2)
+            specs.append({"opt": opt, "desc": d, "cfg": gen.config_dict(rng, opt, scale=1, max_cycles=3, stop="cycles", jit=k % 2 == 1)})
+    with cf.ProcessPoolExecutor(14) as ex:
+        outs = [r for r in ex.map(_touch_run, specs, chunksize=4) if r]
+    recs = []
+    for k, r in enumerate(outs):
+        recs.append({"id": k + 1, "events": [
+            {"ev": "Construct", "c": 1, "raised": ""},
+            {"ev": "Optimize", "t": 1, "cfgid": 1, "cfgafter": 1, "raised": r["raised"], "digest": 0,
+             "caller_same": r["cfg_same"], "task_same": r["task_same"], "earlier_same": True}]})
+    bad, st, consumed = judge("TraceInstance.tla", "TraceInstance.cfg", recs, "touch", jobs=8, per_batch=400)
+    chk.states += st
+    chk.transitions += st
+    chk.traces += consumed
+    chk.evaluations += consumed
+    for rid, clause in bad:
+        r = outs[rid - 1]
+        base = {"optimizer": r["opt"]}
+        for f in (r["cfg_diff"] if clause == "C09.cfg" else r["task_diff"]) or [None]:
+            chk.violation(clause, {**base, "field": f} if f else base, {"run": r["spec"], "raised": r["raised"]})
+    chk.extra["touch_sweep_runs"] = consumed
+    chk.extra["touch_sweep_raising_runs"] = sum(1 for r in outs if r["raised"])
+    for r in outs:
+        chk.distinct.add((r["opt"], "touch", r["spec"]["desc"]["encoding"], r["spec"]["desc"]["dim"] if "dim" in r["spec"]["desc"] else 0, bool(r["raised"])))
+    ok = [r for k, r in enumerate(recs) if (k + 1) not in {i for i, _ in bad}]
+    if ok:
+        c = json.loads(json.dumps(ok[0]))
+        c["id"] = 1
+        c["events"][1]["caller_same"] = False
+        cbad, _, _ = judge("TraceInstance.tla", "TraceInstance.cfg", [c], "touch-canary", jobs=1)
+        chk.canary("C09.cfg#touch", (1, "C09.cfg") in set(cbad), "a configuration field of a real low-dimensional run reported as changed")
 
 
 def _pooled_run(spec):
